@@ -158,6 +158,27 @@ def integrity(seed=0, **kw):
                 if dup_ok or w0.source is not src0:
                     return [{'oid': 'setSource::second-driver@%s#bounded' % name, 'status': 'bounded-fail', 'bounded': True, 'evaluations': evals, 'cfg': cfg, 'model': {'block': name},
                              'replay': {'reproduced': True, 'got': 'second driver accepted' if dup_ok else 'first driver replaced', 'expected': 'raises, first driver kept'}, 'function': 'Wire.setSource'}]
+    # port wires that nothing reads: an undriven structural input / output must still be rejected (at depth 1 and 2)
+    for depth in (1, 2):
+        for kind in ('unused-input', 'undriven-output'):
+            sys3 = _q(py4hw.HWSystem)
+            parent = sys3
+            for dd in range(depth - 1): parent = _q(py4hw.Logic, parent, 'lvl%d' % dd)
+            blk = _q(py4hw.Logic, parent, 'blk')
+            a = sys3.wire('a', 4); r = sys3.wire('r', 4); u = sys3.wire('u', 4)
+            blk.addIn('a', a); blk.addOut('r', r)
+            _q(py4hw.Buf, blk, 'buf', a, r)
+            _q(py4hw.Constant, sys3, 'ka', 0, a)
+            if kind == 'unused-input': blk.addIn('u', u)         # undriven, read by nothing
+            else: blk.addOut('u', u)                              # declared output that nothing drives
+            evals += 1
+            try:
+                _q(checkIntegrity, sys3); raised = False
+            except Exception:
+                raised = True
+            if not raised:
+                return [{'oid': 'checkIntegrity::rejects-%s@depth=%d#bounded' % (kind, depth), 'status': 'bounded-fail', 'bounded': True, 'evaluations': evals, 'model': {'kind': kind, 'depth': depth},
+                         'replay': {'reproduced': True, 'got': 'accepted', 'expected': 'raises: port u is attached to a wire that no block drives'}, 'function': 'checkIntegrity'}]
     return [{'oid': 'checkIntegrity::library-blocks#bounded', 'status': 'bounded-ok', 'bounded': True, 'evaluations': evals, 'function': 'checkIntegrity'}]
 
 
